@@ -46,7 +46,7 @@ def rationalize(x, single: bool = False) -> Fraction:
     tol = 2e-7 if single else 1e-13
     for lim in (64, 1000, 10 ** 6):
         g = f.limit_denominator(lim)
-        if abs(g - f) <= tol * max(1, abs(f)):
+        if abs(g - f) <= tol * abs(f):  # relative: an absolute tolerance would read small magnitudes (1e-8) as 0
             return g
     return f
 
